@@ -219,6 +219,10 @@ func (c *Cond) Wait() {
 	if s.Ending() {
 		return
 	}
+	// a scheduling point before the caller becomes a waiter: a Signal or Broadcast issued by a task that
+	// does not hold L (a lock-free counter reaching zero, say) can fall between the caller's check of
+	// its condition and this registration - the lost wake-up
+	s.Point(simrt.KSync, "Cond.Wait")
 	w := &condWaiter{}
 	c.waiters = append(c.waiters, w)
 	c.L.Unlock()
